@@ -99,7 +99,10 @@ def available_ops(m, variety=0):
                 if n.args[0].kind == 'arg':
                     ops.append(['args', t, 'arg_string', 0, 'AS'])
     for c, C in enumerate(containers(m)):
-        for i in range(len(C.body) + 1):
+        n = len(C.body)
+        # every position, plus indices counted from the end and out of range
+        # (list.insert semantics on the node's stored content list)
+        for i in list(range(n + 1)) + [-1, -2, -n - 2, n + 2]:
             ops.append(['insert', c, i, spec(c + i)])
         ops.append(['append', c, spec(c)])
     return ops
@@ -299,7 +302,7 @@ class C15(Prop):
     id = 'C15'
     level = 'exploration'
     rule = ('cases: edit histories (delete, replace_with, parent.replace, '
-            'parent.remove, insert at every index, append, rename, set string, '
+            'parent.remove, insert at every index (also negative / out of range), append, rename, set string, '
             'argument-list append/insert/pop/reverse/slice/argument string) '
             'with unique fresh nodes (copies of nodes parsed elsewhere) and '
             'plain strings as new material; exhaustive over all valid '
